@@ -140,6 +140,9 @@ func WrapHandler(waf coraza.WAF, h http.Handler) http.Handler {
 			tx.DebugLogger().Error().Err(err).Msg("Failed to process request")
 			return
 		} else if it != nil {
+			if it.Action == "redirect" && it.Data != "" {
+				w.Header().Set("Location", it.Data)
+			}
 			w.WriteHeader(obtainStatusCodeFromInterruptionOrDefault(it, http.StatusOK))
 			return
 		}
@@ -159,9 +162,12 @@ func WrapHandler(waf coraza.WAF, h http.Handler) http.Handler {
 }
 
 // obtainStatusCodeFromInterruptionOrDefault returns the desired status code derived from the interruption
-// on a "deny" action or a default value.
+// of a disruptive action (deny, drop, redirect) or a default value.
 func obtainStatusCodeFromInterruptionOrDefault(it *types.Interruption, defaultStatusCode int) int {
-	if it.Action == "deny" {
+	switch it.Action {
+	case "deny", "drop", "redirect":
+		// Every disruptive action carries the status the client has to receive; the handler's
+		// (or the default 200) status must never be sent for an interrupted transaction.
 		statusCode := it.Status
 		if statusCode == 0 {
 			statusCode = 403
